@@ -20,13 +20,15 @@ def _every(p: P, i: int, n: int = 2000) -> float:
     return max(p.lat(i), p.end() / n)
 
 
-def _tiers() -> list[AudienceTier]:
-    return [
+def _tiers(n: int = 4) -> list[AudienceTier]:
+    base = [
         AudienceTier("hot", base_monthly_sales=1000, base_cpa=5.0),
         AudienceTier("warm", base_monthly_sales=600, base_cpa=12.0),
         AudienceTier("cold", base_monthly_sales=300, base_cpa=22.0),
         AudienceTier("frozen", base_monthly_sales=100, base_cpa=40.0),
     ]
+    extra = [AudienceTier(f"tier{j}", base_monthly_sales=90 - 5 * j, base_cpa=45.0 + 3 * j) for j in range(max(0, n - 4))]
+    return (base + extra)[:n]
 
 
 def _drive_sentiment(sim, advertisers, arr, rng) -> None:
@@ -50,11 +52,11 @@ def advertisers_periodic_evaluation(seed, params):
             f"adv{j}",
             product_price=30.0 + 10 * j,
             production_cost=8.0 + j,
-            tiers=_tiers()[: 4 - j],
+            tiers=_tiers(max(1, p.count(1, 4) - j % 3)),
             platform=platform,
-            evaluation_interval=_every(p, j),
+            evaluation_interval=_every(p, j, n=max(300, 6000 // p.count(0, 3, hi=8))),
         )
-        for j in range(3)
+        for j in range(p.count(0, 3, hi=8))  # counts[0] advertisers, counts[1] tiers
     ]
     arr = p.arrivals(9)
     sim = make_sim([platform, *advs], p.end())
@@ -112,3 +114,28 @@ def advertiser_raw_evaluation_interval(seed, params):
     sim.schedule(adv.start_events())
     _drive_sentiment(sim, [adv], arr, rng)
     return Scenario(sim, {"platform": platform, "adv": adv}, "advertising", True, n)
+
+
+@scenario("advertising.degenerate_advertisers", "advertising")
+def degenerate_advertisers(seed, params):
+    """Advertisers with no tiers, a zero / negative margin, sentiment pinned at 0, a single
+    tier that is never profitable, and one whose platform is shared with all the others."""
+    p = P(params, seed)
+    platform = AdPlatform("platform")
+    advs = [
+        Advertiser("adv.no_tiers", product_price=10.0, production_cost=2.0, tiers=[], platform=platform, evaluation_interval=_every(p, 0, n=500)),
+        Advertiser("adv.no_margin", product_price=5.0, production_cost=5.0, tiers=_tiers(2), platform=platform, evaluation_interval=_every(p, 1, n=500)),
+        Advertiser("adv.negative", product_price=1.0, production_cost=5.0, tiers=_tiers(1), platform=platform, evaluation_interval=_every(p, 2, n=500)),
+        Advertiser("adv.unprofitable", product_price=10.0, production_cost=1.0, tiers=[AudienceTier("x", 0, 1e9)], platform=platform, evaluation_interval=_every(p, 0, n=500)),
+        Advertiser("adv.same_instant", product_price=20.0, production_cost=1.0, tiers=_tiers(p.count(0, 4)), platform=platform, evaluation_interval=_every(p, 0, n=500)),
+    ]
+    arr = p.arrivals(6)
+    sim = make_sim([platform, *advs], p.end())
+    for a in advs:
+        sim.schedule(a.start_events())
+    for i, t in enumerate(arr):
+        for a in advs:
+            sim.schedule(ev(t, "SentimentChange", a, sentiment=[0.0, -1.0, 5.0][i % 3]))
+            if i % 2:
+                sim.schedule(ev(t, "SentimentChange", a))  # no sentiment given: keeps the old one
+    return Scenario(sim, {"platform": platform, **{a.name: a for a in advs}}, "advertising", True, len(arr) * len(advs))
